@@ -700,6 +700,29 @@ example :
     (s.slice 8 4).feats.map (fun f => (f.key, f.loc.den.map (·.1))) =
       [("source", [0, 1, 2, 3, 4, 5]), ("misc_feature", [5, 4, 3, 2, 1, 0])] := by decide
 
+/-- FULL STATEMENT of "no resulting location refers to a position outside the new sequence" for a WRAP-AROUND
+window without a proviso on ambiguous spans (false on the model and on the code; confirmed on the real code by
+`seq.slice … (A 6 9) … 8 4`, which answers `(A 6 1)`): an ambiguous span across the window START — `one-of(7.9)` on
+ten residues, window `Slice(seq, 8, 4)` = residues `9,10,1..4` — comes back INVERTED, `Ambiguous{6, 1}`, printed
+`7.1` on a six-residue record.  It is the rotation step's `Ambiguous.Normalize` (C04 `rotate_coords_full_refuted`;
+C04's quantifier carves the shape out: "ambiguous spans only when they do not cross the new origin"); C03's
+quantifier has no such carve-out, so by C03's words this is a violation — recorded here and in DESIGN §6 C03 as an
+OPEN item (no `known_findings.json` entry and no sequence-level generator for Ambiguous features yet: `genFeature`
+draws none). -/
+theorem slice_wrap_ambiguous_coords_full_refuted :
+    ¬ (∀ (s : Seq) (a b : Int), 0 ≤ b → b < a → a ≤ s.len →
+        (∀ f ∈ s.feats, wf f.loc = true ∧ coordsWithin f.loc s.len = true) →
+        ∀ f' ∈ (s.slice a b).feats, coordsWithin f'.loc (s.slice a b).len = true) := by
+  intro h
+  have := h ⟨[⟨"misc", ambiguous 6 9, []⟩], [97, 99, 103, 116, 97, 99, 103, 116, 97, 99]⟩ 8 4
+    (by decide) (by decide) (by decide) (by decide) ⟨"misc", ambiguous 6 1, []⟩
+    (by
+      have hs : (Seq.slice ⟨[⟨"misc", ambiguous 6 9, []⟩], [97, 99, 103, 116, 97, 99, 103, 116, 97, 99]⟩ 8 4).feats
+          = [⟨"misc", ambiguous 6 1, []⟩] := by rfl
+      rw [hs]; exact List.mem_singleton.mpr rfl)
+  revert this
+  decide
+
 /-- **negative indices, as the code treats them**: `Slice` first adds the length to a negative
 `start` / `end` (once); from `-L` upwards that is all the sign does -/
 theorem slice_neg_norm (s : Seq) (a b : Int) (ha : 0 ≤ Bridge.sliceNorm s.len a)
